@@ -9,6 +9,7 @@ package main
 import (
 	"context"
 	"fmt"
+	"net/http"
 	"net/http/httptest"
 	"net/url"
 	"reflect"
@@ -234,4 +235,139 @@ func (c *C05Deep) features() string {
 		return "flat"
 	}
 	return fmt.Sprint(ks)
+}
+
+// ---- compositions (Go side): a parameter schema that is a oneOf / anyOf / allOf over primitive and array shapes ----
+type C05Comp struct {
+	In      string `json:"in"`
+	Style   string `json:"style"`
+	Explode bool   `json:"explode"`
+	Comp    string `json:"composition"` // oneOf-array-first, oneOf-array-last, anyOf, allOf
+	Value   any    `json:"value"`       // []any of int64, int64, or nil (absent)
+}
+
+func compCases() []C05Comp {
+	var out []C05Comp
+	cells := []struct {
+		in, style string
+		explode   bool
+	}{{"query", "form", false}, {"query", "form", true}, {"query", "pipeDelimited", false}, {"query", "spaceDelimited", false}, {"header", "simple", false}, {"path", "simple", false}, {"path", "label", false}, {"cookie", "form", false}}
+	for _, c := range cells {
+		for _, comp := range []string{"oneOf-array-first", "oneOf-array-last", "anyOf"} {
+			out = append(out, C05Comp{c.in, c.style, c.explode, comp, []any{int64(7), int64(8), int64(9)}})
+			if c.in != "path" {
+				out = append(out, C05Comp{c.in, c.style, c.explode, comp, nil})
+			}
+		}
+		if c.style == "form" || c.style == "simple" || c.style == "label" {
+			out = append(out, C05Comp{c.in, c.style, c.explode, "allOf", int64(5)})
+		}
+	}
+	return out
+}
+
+func runComp(c *C05Comp) (sig, detail string) {
+	arr := openapi3.NewArraySchema().WithItems(openapi3.NewIntegerSchema())
+	other := openapi3.NewBoolSchema()
+	var s *openapi3.Schema
+	switch c.Comp {
+	case "oneOf-array-first":
+		s = openapi3.NewOneOfSchema(arr, other)
+	case "oneOf-array-last":
+		s = openapi3.NewOneOfSchema(other, arr)
+	case "anyOf":
+		s = openapi3.NewAnyOfSchema(arr, other)
+	default:
+		s = openapi3.NewAllOfSchema(openapi3.NewIntegerSchema(), openapi3.NewIntegerSchema().WithMin(1))
+	}
+	p := &openapi3.Parameter{Name: "ids", In: c.In, Style: c.Style, Explode: openapi3.BoolPtr(c.Explode), Required: c.Value != nil, Schema: s.NewRef()}
+	op := openapi3.NewOperation()
+	op.Parameters = openapi3.Parameters{&openapi3.ParameterRef{Value: p}}
+	path := "/p"
+	if c.In == "path" {
+		path = "/p/{ids}"
+	}
+	item := &openapi3.PathItem{Get: op}
+	doc := &openapi3.T{OpenAPI: "3.0.0", Info: &openapi3.Info{Title: "t", Version: "1"}, Paths: openapi3.NewPaths()}
+	route := &routers.Route{Spec: doc, Path: path, PathItem: item, Method: "GET", Operation: op}
+	var texts []string
+	switch v := c.Value.(type) {
+	case []any:
+		for _, e := range v {
+			texts = append(texts, fmt.Sprint(e))
+		}
+	case int64:
+		texts = []string{fmt.Sprint(v)}
+	}
+	mk := func() *openapi3filter.RequestValidationInput {
+		req := httptest.NewRequest("GET", "/p", nil)
+		in := &openapi3filter.RequestValidationInput{Request: req, Route: route, Options: &openapi3filter.Options{SkipSettingDefaults: true}}
+		if c.Value == nil {
+			return in
+		}
+		sep := ","
+		switch c.Style {
+		case "pipeDelimited":
+			sep = "|"
+		case "spaceDelimited":
+			sep = " "
+		}
+		joined := ""
+		for i, t := range texts {
+			if i > 0 {
+				joined += sep
+			}
+			joined += t
+		}
+		switch c.In {
+		case "query":
+			q := url.Values{}
+			if c.Explode && len(texts) > 1 {
+				for _, t := range texts {
+					q.Add("ids", t)
+				}
+			} else {
+				q.Set("ids", joined)
+			}
+			req.URL.RawQuery = q.Encode()
+		case "header":
+			req.Header.Set("ids", joined)
+		case "cookie":
+			req.AddCookie(&http.Cookie{Name: "ids", Value: joined})
+		case "path":
+			if c.Style == "label" {
+				joined = "." + joined
+			}
+			in.PathParams = map[string]string{"ids": joined}
+		}
+		return in
+	}
+	var val any
+	var found bool
+	var err error
+	if pn := catchPanic(func() { val, found, err = openapi3filter.VerifDecodeStyledParameter(p, mk()) }); pn != nil {
+		return "composition:panic", fmt.Sprint(pn)
+	}
+	if c.Value == nil {
+		if err != nil || found || !isNilish(val) {
+			return "composition:absent-parameter-not-reported-absent", fmt.Sprintf("%#v found=%v err=%v", val, found, err)
+		}
+		return "", ""
+	}
+	switch {
+	case err != nil:
+		return "composition:serialised-value-is-an-error", err.Error()
+	case !reflect.DeepEqual(val, c.Value):
+		return "composition:decoded-value-differs", fmt.Sprintf("got %#v want %#v", val, c.Value)
+	case !found:
+		return "composition:serialised-value-not-found", ""
+	}
+	var verr error
+	if pn := catchPanic(func() { verr = openapi3filter.ValidateParameter(context.Background(), mk(), p) }); pn != nil {
+		return "composition:panic", fmt.Sprint(pn)
+	}
+	if verr != nil {
+		return "composition:valid-parameter-rejected", verr.Error()
+	}
+	return "", ""
 }
